@@ -154,3 +154,89 @@ def apply_fields(data):
     data["bodies"] = fix(data["bodies"])
     data["_renamed_fields"] = {k: {str(i): v for i, v in d.items()} for k, d in ren.items()}
     return ren
+
+
+CONSTS = os.path.join(HERE, "baseline_consts.json")
+
+
+def apply_consts(data):
+    """Renamed private constants.  A constant of the pinned tree that is gone, while exactly one constant the pinned tree does not
+    have sits in the same impl / module with the same type and the same evaluated value (and no other missing constant of that
+    impl has that type and value), is the same constant: the item table and every use are rewritten to the old name."""
+    if not os.path.exists(CONSTS):
+        return {}
+    base = _cache.get("consts")
+    if base is None:
+        base = _cache["consts"] = json.load(open(CONSTS))
+    have = {c["def"]: c for c in data.get("consts", [])}
+    missing = [n for n in base if n not in have]
+    new = [n for n in have if n not in base and have[n].get("vis") not in ("pub", "public")]
+    ren = {}
+    for o in missing:
+        ty, val = base[o]
+        cn = [n for n in new if parent(n) == parent(o) and have[n].get("ty") == ty and have[n].get("value") == val and val is not None]
+        co = [x for x in missing if parent(x) == parent(o) and base[x] == [ty, val]]
+        if len(cn) == 1 and len(co) == 1:
+            ren[cn[0]] = o
+    # renamed *and* given another value: exactly one constant of the impl is gone and exactly one of that type is new -- read under
+    # the old name, so that the rules judge the new value
+    for o in missing:
+        if o in ren.values():
+            continue
+        ty = base[o][0]
+        cn = [n for n in new if n not in ren and parent(n) == parent(o) and have[n].get("ty") == ty]
+        co = [x for x in missing if x not in ren.values() and parent(x) == parent(o) and base[x][0] == ty]
+        if len(cn) == 1 and len(co) == 1:
+            ren[cn[0]] = o
+    if not ren:
+        return {}
+
+    def fix(x):
+        if isinstance(x, dict):
+            return {k: fix(v) for k, v in x.items()}
+        if isinstance(x, list):
+            return [fix(v) for v in x]
+        if isinstance(x, str):
+            return ren.get(x, x)
+        return x
+    data["consts"] = fix(data["consts"])
+    data["bodies"] = fix(data["bodies"])
+    data["_renamed_consts"] = ren
+    return ren
+
+
+STATICS = os.path.join(HERE, "baseline_statics.json")
+
+
+def apply_statics(data):
+    """Renamed private statics: the same reading as for constants, by module, type and mutability (a static has no evaluated value
+    in the facts; the rules that read it judge its uses, which are rewritten with it)."""
+    if not os.path.exists(STATICS):
+        return {}
+    base = _cache.get("statics")
+    if base is None:
+        base = _cache["statics"] = json.load(open(STATICS))
+    have = {s["def"]: s for s in data.get("statics", [])}
+    missing = [n for n in base if n not in have]
+    new = [n for n in have if n not in base]
+    ren = {}
+    for o in missing:
+        cn = [n for n in new if parent(n) == parent(o) and [have[n]["ty"].get("s"), bool(have[n].get("mut"))] == base[o]]
+        co = [x for x in missing if parent(x) == parent(o) and base[x] == base[o]]
+        if len(cn) == 1 and len(co) == 1:
+            ren[cn[0]] = o
+    if not ren:
+        return {}
+
+    def fix(x):
+        if isinstance(x, dict):
+            return {k: fix(v) for k, v in x.items()}
+        if isinstance(x, list):
+            return [fix(v) for v in x]
+        if isinstance(x, str):
+            return ren.get(x, x)
+        return x
+    data["statics"] = fix(data["statics"])
+    data["bodies"] = fix(data["bodies"])
+    data["_renamed_statics"] = ren
+    return ren
